@@ -17,18 +17,14 @@ Theorem C37_refuted_namespace : exists url, known_K1 url = true /\
 Proof. exists "_lib". exact refuted_namespace. Qed.
 Print Assumptions C37_refuted_namespace.
 
-(* @forward show/hide without prefix filters exactly the listed members: all member sets, all lists *)
+(* @forward show / hide / as p-* filter and rename exactly the listed members: ALL member sets, prefixes and
+   lists (full strength since fix 2f8ada8; F29 is gone) *)
+Theorem C37_forward_filter : forall m pfx e, forward_view m pfx e = spec_forward_view m pfx e.
+Proof. exact forward_ok. Qed.
+Print Assumptions C37_forward_filter.
 Theorem C37_show_hide : forall m e, forward_view m None e = spec_forward_view m None e.
 Proof. exact show_hide. Qed.
 Print Assumptions C37_show_hide.
-(* @forward ... as p-* without show/hide renames every member *)
-Theorem C37_prefix_all : forall m p, forward_view m (Some p) EAll = spec_forward_view m (Some p) EAll.
-Proof. exact prefix_all. Qed.
-Print Assumptions C37_prefix_all.
-(* F29: prefix together with show/hide is wrong *)
-Theorem C37_refuted_prefix_filter : exists m p e, known_K3 p e = true /\ forward_view m p e <> spec_forward_view m p e.
-Proof. exists lib, (Some "p-"), (EShow ["p-f"] ["p-v"]). exact refuted_prefix_filter. Qed.
-Print Assumptions C37_refuted_prefix_filter.
 
 (* `with`: for every module and every duplicate-free configuration of variables the module declares
    with !default, rsass's module variables are the reference's *)
@@ -55,5 +51,6 @@ Print Assumptions C37_builtin_guard.
 Example C37_nonvacuous :
   known_K1 "sub/my_lib" = false /\ default_namespace "sub/my_lib" = "my-lib"
   /\ forward_view lib None (EHide ["f"; "m"] ["v"]) = mkMem [("w", 2%Z)] ["g"] ["n"]
+  /\ forward_view lib (Some "p-") (EShow ["p-f"] ["p-v"]) = mkMem [("p-v", 1%Z)] ["p-f"] []
   /\ configure [("v", 1%Z, true); ("w", 2%Z, false)] [("v", 5%Z)] = Some [("v", 5%Z); ("w", 2%Z)].
 Proof. vm_compute. repeat split. Qed.
